@@ -1,5 +1,6 @@
 import Duckling.Model.Compile
 import Duckling.Lemmas.RBasic
+import Duckling.Lemmas.OptsOut
 /-
   C15 — options do what they say through every entry point.
 
@@ -14,8 +15,13 @@ import Duckling.Lemmas.RBasic
   * `C15_suppress`           with suppression on, an unknown word adds no warning; off, it adds the located one;
   * `C15_options_reach_children`  the context of a child stack carries the same options as its parent;
   * `C15_entry_points`       `compile_file` is `compile` of the file's text with the effective options and the file as location.
-  The whole-program metamorphic statements (comments-on output = comments-off output with REMs inserted, …) are
-  validated by the correspondence over all option combinations, not proved — `partial` in that respect.
+  * `C15_comments_off_no_rem`   **whole programs**: with comments off, no output line of any program without IGNORE blocks begins
+                              with REM — at any nesting, through calls and imports (the options of a compilation are the options of
+                              every stack it creates; hereditary walk instance with the context invariant "comments are off");
+  * `C15_flipper_off_no_flipper_line`  likewise with Flipper commands off no output line begins with a Flipper-only command word;
+  * `C15_compile_comments_off` / `C15_compile_flipper_off`  the same for `Compiler.compile`.
+  The metamorphic statement (comments-on output = comments-off output with the REM lines inserted) is validated by the
+  correspondence over all option combinations, not proved — `partial` in that respect.
 -/
 namespace Duckling.Props.C15
 open Duckling
@@ -75,5 +81,67 @@ theorem C15_entry_points (o : Opts) (fs : FS) (cfgs : List (Path × ProjCfg)) (f
     (compileFile o fs cfgs file).1 =
       compile (calculateOptions o ((cfgs.find? (·.1 == parentDir file)).map (·.2))).1 fs (some file) (.text text) := by
   simp [compileFile, h]
+
+open Duckling.Spec in
+/-- **comments off ⇒ no REM line**, for every program without IGNORE, any depth, context (with comments off) and state -/
+theorem C15_comments_off_no_rem (d : Nat) (nodes : List Node) (ctx : Ctx) (st : St) (o : Out)
+    (hoff : ctx.opts.comments = false)
+    (hnodes : allCmdsL niq nodes = true) (hst : StOk niq st) (hfs : FSOk niq ctx.fs)
+    (h : exec d nodes ctx st = .ok o) : ∀ l ∈ o.out, firstWord l ≠ "REM" := by
+  intro l hl
+  have := (exec_hereditary hspec_noRem d nodes ctx st hnodes hst hfs hoff).outs o h l hl
+  simpa [notRem] using this
+
+open Duckling.Spec in
+/-- **Flipper commands off ⇒ no Flipper-only command line** -/
+theorem C15_flipper_off_no_flipper_line (d : Nat) (nodes : List Node) (ctx : Ctx) (st : St) (o : Out)
+    (hoff : ctx.opts.flipper = false)
+    (hnodes : allCmdsL niq nodes = true) (hst : StOk niq st) (hfs : FSOk niq ctx.fs)
+    (h : exec d nodes ctx st = .ok o) : ∀ l ∈ o.out, firstWord l ∉ flipperWords := by
+  intro l hl
+  have := (exec_hereditary hspec_noFlipper d nodes ctx st hnodes hst hfs hoff).outs o h l hl
+  simpa [notFlipper] using this
+
+theorem compile_out_of_exec (opts : Opts) (fs : FS) (file : Option Path) (src : Source)
+    (out : List Str) (warns : List Warn) (prints : List Print) (vars : List (Str × Val))
+    (h : compile opts fs file src = .ok out warns prints vars) :
+    ∃ nodes r, prepare src = .ok nodes ∧
+      exec (opts.stackLimit - 1) nodes { opts := opts.flags, fs := fs, frames := [], file := file } { env := initEnv } = .ok r ∧ r.out = out := by
+  unfold compile at h
+  split at h
+  · cases h
+  · cases h
+  · rename_i nodes hn
+    simp only [] at h
+    split at h
+    · rename_i r hr
+      simp only [Result.ok.injEq] at h
+      exact ⟨nodes, r, hn, hr, h.1⟩
+    · cases h
+    · cases h
+    · cases h
+
+theorem initEnv_stOk (q : Str → Bool → Bool) : StOk q { env := initEnv } := by
+  intro c hc
+  unfold initEnv at hc
+  split at hc <;> simp [St.codes] at hc
+
+open Duckling.Spec in
+theorem C15_compile_comments_off (opts : Opts) (fs : FS) (file : Option Path) (src : Source)
+    (out : List Str) (warns : List Warn) (prints : List Print) (vars : List (Str × Val))
+    (hoff : opts.comments = false)
+    (hsrc : ∀ nodes, prepare src = .ok nodes → allCmdsL niq nodes = true) (hfs : FSOk niq fs)
+    (h : compile opts fs file src = .ok out warns prints vars) : ∀ l ∈ out, firstWord l ≠ "REM" := by
+  obtain ⟨nodes, r, hn, hr, rfl⟩ := compile_out_of_exec opts fs file src out warns prints vars h
+  exact C15_comments_off_no_rem _ nodes _ _ r hoff (hsrc nodes hn) (initEnv_stOk _) hfs hr
+
+open Duckling.Spec in
+theorem C15_compile_flipper_off (opts : Opts) (fs : FS) (file : Option Path) (src : Source)
+    (out : List Str) (warns : List Warn) (prints : List Print) (vars : List (Str × Val))
+    (hoff : opts.flipper = false)
+    (hsrc : ∀ nodes, prepare src = .ok nodes → allCmdsL niq nodes = true) (hfs : FSOk niq fs)
+    (h : compile opts fs file src = .ok out warns prints vars) : ∀ l ∈ out, firstWord l ∉ flipperWords := by
+  obtain ⟨nodes, r, hn, hr, rfl⟩ := compile_out_of_exec opts fs file src out warns prints vars h
+  exact C15_flipper_off_no_flipper_line _ nodes _ _ r hoff (hsrc nodes hn) (initEnv_stOk _) hfs hr
 
 end Duckling.Props.C15
